@@ -59,6 +59,10 @@ type uObs struct {
 	FaultSilent  int        `json:"fault_silent"`  // ... that returned success without the whole archive materialised
 	FaultOutside int        `json:"fault_outside"` // ... that changed something outside dst
 	FaultNotes   []string   `json:"fault_notes"`
+	MutRuns      int        `json:"mut_runs"`    // corrupted variants of this archive that were unpacked
+	MutBad       int        `json:"mut_bad"`     // ... that panicked or did not return
+	MutOutside   int        `json:"mut_outside"` // ... that changed something outside dst
+	MutNotes     []string   `json:"mut_notes"`
 	Hist         []uEntry   `json:"hist"`
 	St           string     `json:"st"`
 	Fs           []arena.PN `json:"fs"`
@@ -139,6 +143,7 @@ func statusOf(err error) string {
 }
 
 var faultEvery = 8
+var mutEvery = 40
 
 // unpackFaults re-runs the archive with the reader failing (or ending) at byte
 // offsets of the compressed stream: a successful return must have materialised
@@ -229,6 +234,9 @@ func unpackFaults(base string, h *uHeader, g *arena.Gamma, c *uCase, full *uObs,
 func unpackMain() int {
 	relAllow = *flagMode == "allowrel"
 	unpriv = *flagMode == "unpriv"
+	if os.Getenv("VERIF_TIER") == "thorough" {
+		mutEvery = 6
+	}
 	defer uwStopAll()
 	props := strings.Split(*flagProps, ",")
 	var gammas []int64
@@ -281,6 +289,14 @@ func unpackMain() int {
 			return
 		}
 		obs.FaultNotes = []string{}
+		obs.MutNotes = []string{}
+		if *flagMode == "mutate" && int(n)%mutEvery == 0 && len(c.Hist) > 0 {
+			if msg := unpackMutations(base, hdr, g, &c, obs, w); msg != "" {
+				acc.Infra(msg)
+				return
+			}
+			acc.Extra("mutation_runs", int64(obs.MutRuns))
+		}
 		if *flagMode == "faults" && int(n)%faultEvery == 0 && len(c.Hist) > 0 {
 			if msg := unpackFaults(base, hdr, g, &c, obs, w, n); msg != "" {
 				acc.Infra(msg)
@@ -298,7 +314,7 @@ func unpackMain() int {
 				}
 			}
 		}
-		agree := obs.St == c.St && arena.SameFS(pred, ofs) && obs.FaultSilent == 0 && obs.FaultOutside == 0
+		agree := obs.St == c.St && arena.SameFS(pred, ofs) && obs.FaultSilent == 0 && obs.FaultOutside == 0 && obs.MutBad == 0 && obs.MutOutside == 0
 		key, _ := json.Marshal(struct {
 			H []uEntry
 			F *uFault
